@@ -561,8 +561,11 @@ static void do_arena_op(const Op& op) {
     MArena ar; mi_arena_id_t id = 0;
     if (op.code == OP_reserve_arena) {
       expect_errors(EB_ENOMEM);
-      int rc = mi_reserve_os_memory_ex((size_t)op.a, op.b != 0, false, op.c != 0, &id);
-      if (rc != 0) { if (!null_allowed(op)) sim_violation("unexpected_null", "mi_reserve_os_memory_ex(%llu) failed with %d", (unsigned long long)op.a, rc); return; }
+      // d bit0: allow large (2 MiB) OS pages; d bit1: reserve 1 GiB huge OS pages (both give a pinned arena when the simulated OS has such pages)
+      int rc;
+      if (op.d & 2) { size_t pages = (size_t)(op.a >> 30); if (pages < 1) pages = 1; rc = mi_reserve_huge_os_pages_at_ex(pages, (op.d & 4) ? 0 : -1, (op.d & 8) ? 2000 : 0, op.c != 0, &id); }
+      else rc = mi_reserve_os_memory_ex((size_t)op.a, op.b != 0, (op.d & 1) != 0, op.c != 0, &id);
+      if (rc != 0) { if (!null_allowed(op) && !(op.d & 3)) sim_violation("unexpected_null", "mi_reserve_os_memory_ex(%llu) failed with %d", (unsigned long long)op.a, rc); return; }   // huge / large page reservations may fail (none configured, hint not honoured)
       ar.exclusive = op.c != 0;
     } else {
       bool committed = (op.b & 1) != 0, exclusive = (op.b & 2) != 0, is_zero = (op.b & 4) != 0;
@@ -574,6 +577,7 @@ static void do_arena_op(const Op& op) {
     }
     ar.id = id; size_t sz = 0; ar.start = (uint8_t*)mi_arena_area(id, &sz); ar.size = sz;
     if (ar.start == nullptr || sz == 0) sim_violation("api_contract", "mi_arena_area(%d) reports no area for an arena that was just created", id);
+    ar.pinned = os_is_hugetlb((uint64_t)(uintptr_t)ar.start); if (ar.pinned) probe(PR_pinned_arena);
     if (ar.donated && !(ar.start >= ar.region && ar.start + ar.size <= ar.region + ar.region_size)) sim_violation("arena_bounds", "arena %d area [%p,+%zu) is not inside the donated region [%p,+%zu)", id, (void*)ar.start, ar.size, (void*)ar.region, ar.region_size);
     H.arenas[as] = ar;
     T->initialized = true;
